@@ -3,7 +3,8 @@
  R1 merge keys of the cross-estimand joins cover every shared column (aggregate and unit level) - shared with C01.R5;
  R2 per-level caches: every model attribute written by the per-level unit interval step and read by the per-level aggregate
     interval step is a dictionary keyed by the level, the stored value is a copy (or a fresh object) and it is read back with
-    the same key; the client hands each aggregate call the unit intervals of the same level;
+    the same key; the client hands each aggregate call the unit intervals of the same level; because none of that state is
+    keyed by the estimand, producer and consumer steps run inside one iteration of the client's estimand loop (R2.scope);
  R3 no step executed inside the estimand / level / aggregate loops draws from a persistent random generator unless it is behind
     a run-once guard; shuffles and resampling inside the loops construct their generator freshly from the seed;
  R4 in-place column writes on the shared unit frames inside the loops use a column name that contains every request parameter
@@ -37,6 +38,7 @@ def check(ctx):
                         "C12 decides that the seeds themselves derive from the seed setting"]
     merge_keys(ctx, "C13.R1")
     _caches(ctx)
+    _estimand_scope(ctx)
     _generators(ctx)
     _column_writes(ctx)
 
@@ -148,6 +150,91 @@ def _caches(ctx):
             res_key = ast.unparse(st.targets[0].slice)
         ctx.ob("C13.R2.client", f"{ge.qualname}|result stored under its level", res_key == lv, ge.where(c),
                "the result is stored under its own level" if res_key == lv else f"result stored under {res_key}")
+
+
+def _estimand_scope(ctx):
+    """R2.scope: model state written by one per-estimand step and read by a later one is keyed (at most) by the level, never by
+    the estimand.  That is sound only while the client consumes it inside the SAME iteration of the estimand loop that produced
+    it: writer and reader call sit in one `for <estimand>` body (the loop variable is what both pass as `estimand`), writer first."""
+    repo = ctx.repo
+    ge = ctx.fn(CLIENT, "ModelClient.get_estimates")
+    sites = {}
+    for c in util.own_nodes(ge, ast.Call):
+        if isinstance(c.func, ast.Attribute) and c.func.attr in LOOP_STEPS and ast.unparse(c.func.value) == "self.model":
+            sites.setdefault(c.func.attr, []).append(c)
+    classes = [repo.cls(m, c) for m, c in (("elexmodel.models.NonparametricElectionModel", "NonparametricElectionModel"),
+                                           ("elexmodel.models.GaussianElectionModel", "GaussianElectionModel"),
+                                           ("elexmodel.models.BootstrapElectionModel", "BootstrapElectionModel"))]
+
+    def est_arg(call, step):
+        """the expression the call passes as `estimand`"""
+        for cls in classes:
+            m = cls.lookup(step)
+            if m is not None and "estimand" in m.params:
+                i = m.params.index("estimand") - 1
+                if i < len(call.args):
+                    return call.args[i]
+                for k in call.keywords:
+                    if k.arg == "estimand":
+                        return k.value
+        return None
+
+    def loops_of(n):
+        out = []
+        while n is not None:
+            if isinstance(n, ast.For):
+                out.append(n)
+            n = getattr(n, "_parent", None)
+        return out
+
+    npairs = 0
+    for wi, wstep in enumerate(LOOP_STEPS):
+        for rstep in LOOP_STEPS[wi + 1:]:
+            carried = {}
+            for cls in classes:
+                wr = {}
+                for g in _closure(ctx, cls, wstep):
+                    for a, nodes in _attr_accesses(g)[1].items():
+                        # a write whose key mentions the estimand is estimand-scoped by itself
+                        if all(isinstance(n, ast.Subscript) and any(isinstance(x, ast.Name) and x.id == "estimand" for x in ast.walk(n.slice)) for n in nodes):
+                            continue
+                        wr[a] = True
+                rd = set()
+                for g in _closure(ctx, cls, rstep):
+                    rd |= set(_attr_accesses(g)[0])
+                for a in sorted(set(wr) & rd):
+                    carried.setdefault(cls.name, []).append(a)
+            if not carried or wstep not in sites or rstep not in sites:
+                continue
+            for rc in sites[rstep]:
+                npairs += 1
+                ra = est_arg(rc, rstep)
+                ok, why = False, "no producing call found"
+                for wc in sites[wstep]:
+                    wa = est_arg(wc, wstep)
+                    common = [l for l in loops_of(rc) if l in loops_of(wc)]
+                    inner = next((l for l in common if isinstance(l.target, ast.Name) and isinstance(ra, ast.Name) and isinstance(wa, ast.Name)
+                                  and l.target.id == ra.id == wa.id), None)
+                    if inner is None:
+                        why = (f"{wstep} (line {wc.lineno}) and {rstep} (line {rc.lineno}) do not run in the same iteration of the estimand loop")
+                        continue
+                    # producer first: the statement of the loop body holding the producer precedes the one holding the consumer
+                    # (nested level loops over the same list run the same number of times; matched levels are R2.client)
+                    def top_index(n):
+                        while getattr(n, "_parent", None) is not inner:
+                            n = n._parent
+                        return inner.body.index(n) if n in inner.body else None
+                    wi_, ri_ = top_index(wc), top_index(rc)
+                    if wi_ is None or ri_ is None or not wi_ <= ri_ or (wi_ == ri_ and not (wc.lineno, wc.col_offset) < (rc.lineno, rc.col_offset)):
+                        why = f"{wstep} does not run before {rstep} within the iteration"
+                        continue
+                    ok = True
+                    break
+                ex = "; ".join(f"{k}: {', '.join(v[:4])}{' ..' if len(v) > 4 else ''}" for k, v in carried.items())
+                ctx.ob("C13.R2.scope", f"{ge.qualname}|{wstep} -> {rstep} in one estimand iteration", ok, ge.where(rc),
+                       f"state carried on the model object ({ex}) is produced and consumed within one iteration of the estimand loop" if ok
+                       else f"{why}: state carried on the model object without an estimand key ({ex}) then belongs to another estimand")
+    ctx.sites("C13.R2.scope", npairs, 3, "producer / consumer step pairs of get_estimates that share model state")
 
 
 def _aliases_mutated(g, val, st):
